@@ -261,6 +261,32 @@ class Spec:
             if code != 0:
                 self.fail('edit-raises', f'{where}: raised (code {code})', culprit=k)
                 self.broken = True
+        elif k == 'delclass':
+            dk = op[1]
+            for c in self.supers:
+                self.supers[c] = [x for x in self.supers[c] if x != dk]
+                self.gens[c] = [-1 if g == dk else g for g in self.gens.get(c, [])]
+                for d in self.feats[c]:
+                    if d['ftype'] == dk:
+                        d['untyped'] = True         # its type is gone: writes are not judged
+            self.supers[dk], self.gens[dk], self.feats[dk], self.ops[dk] = [], [], [], []
+            self.opbad = {x for x in self.opbad if x[0] != dk}
+            if code != 0:
+                self.fail('edit-raises', f'{where}: raised (code {code})', culprit=k)
+                self.broken = True
+        elif k == 'rebound':
+            _, c, name, ub = op
+            d = next(x for x in self.feats[c] if x['name'] == name)
+            if d.setdefault('born_many', d['many']) and d['ftype'] == 0:
+                d['default'] = 0        # a many-valued attribute is declared without default_value: EInt's own default
+            d['many'] = ub < 0 or ub > 1
+            # an instance that has looked at the feature keeps the holder it got (the recorded stale-slot finding)
+            for (i, n), dids in self.touched.items():
+                if n == name and d['did'] in dids:
+                    self.frozen.add((i, d['did']))
+            if code != 0:
+                self.fail('edit-raises', f'{where}: raised (code {code})', culprit=k)
+                self.broken = True
         elif k == 'look':
             if not self.broken and code == 0:
                 self.check_views(op[1], list(payload), where)
@@ -421,7 +447,7 @@ class Spec:
         elif k in ('set', 'append'):
             i, n, v = op[1], op[2], op[3]
             D = self.decls(self.inst[i], n)
-            if len(D) == 1 and D[0].get('akind') and not self.opdecl(self.inst[i], n):
+            if len(D) == 1 and (D[0].get('akind') or D[0].get('untyped') or (i, D[0]['did']) in self.frozen) and not self.opdecl(self.inst[i], n):
                 self.touch(i, n)            # writes into the typed attributes of the defaults family are not judged,
                 self.frozen.add((i, D[0]['did']))       # nor what the instance reads afterwards
                 return
@@ -996,6 +1022,111 @@ def samename_scenarios(ctx, out, intern=None, stats=None):
             stats['ops'] += len(h)
 
 
+# ---------------------------------------------------------------- a class is deleted; a bound is edited
+class DelGen(BulkGen, GenericGen):
+    """Super types arrive by every route (append / insert / extend / += / whole assignment / superclass=tuple / generic);
+    at the end a class that others inherit from is delete()d; instances of every class are created and every view asked."""
+
+    def history(self):
+        super().history()
+        sp, r = self.sp, self.rng
+        nc = len(sp.supers)
+        typed = {d['ftype'] for c in sp.feats for d in sp.feats[c]}
+        used = [k for k in range(1, nc + 1) if k not in typed and any(k in sp.supers[c] or k in sp.gens.get(c, []) for c in sp.supers)]
+        cand = used or [k for k in range(1, nc + 1) if k not in typed]
+        if cand:
+            self.emit(['delclass', r.choice(cand)])
+        for c in range(1, nc + 1):
+            self.emit(['newinst', c])
+        for i in range(len(sp.inst)):
+            self.emit(['look', i])
+        return self.h
+
+
+def delclass_systematic():
+    out = []
+    feats = [['addfeat', 1, 'x', 0, 0, 5, 'append'], ['addop', 1, 'f', [], 'append'], ['addfeat', 2, 'y', 0, 1, 0, 'append']]
+    tail = [['newinst', 3], ['newinst', 4], ['newinst', 1], ['look', 0], ['look', 1], ['look', 2], ['look', 3], ['look', 4]]
+    routes = [[['addsuper', 3, 1, via], ['addsuper', 3, 2, via]] for via in ('append', 'insert', 'extend', 'iadd')]
+    routes += [[['setsupers', 3, [1, 2]]], [['setsupers', 3, [2, 1]]], [['addgen', 3, 1, 'before'], ['addsuper', 3, 2, 'extend']],
+               [['addsuper', 3, 2, 'append'], ['addgen', 3, 1, 'after']]]
+    for k in (1, 2):
+        for rt in routes:
+            out.append([['newclass', []], ['newclass', []], ['newclass', []], ['newclass', [3]]] + feats + rt
+                       + [['newinst', 3], ['newinst', 4], ['delclass', k]] + tail)
+        for sup in ([1, 2], [2, 1], [1]):       # superclass=tuple / single
+            out.append([['newclass', []], ['newclass', []], ['newclass', sup], ['newclass', [3]]] + feats
+                       + [['newinst', 3], ['newinst', 4], ['delclass', k]] + tail)
+    # the middle of a chain goes
+    out.append([['newclass', []], ['newclass', [1]], ['newclass', [2]], ['newclass', [3]]] + feats
+               + [['newinst', 3], ['newinst', 4], ['delclass', 2]] + tail)
+    return out
+
+
+class ReboundGen(Gen):
+    """upperBound of declared features edited in place among 1, -1, -2, 2, 5, 0."""
+
+    def step(self, ncls):
+        r, sp = self.rng, self.sp
+        if r.random() >= 0.3:
+            return super().step(ncls)
+        owners = [(c, d['name']) for c in sp.feats for d in sp.feats[c] if not d.get('akind')]
+        if not owners:
+            return False
+        c, name = r.choice(owners)
+        self.emit(['rebound', c, name, r.choice([1, -1, -2, -2, 2, 5, 0])])
+        return True
+
+
+def rebound_systematic():
+    out = []
+    for many0 in (0, 1):
+        for ftype in (0, 2):
+            for ub in (1, -1, -2, 2, 5, 0):
+                for ub2 in (None, 1, -2):
+                    h = [['newclass', []], ['newclass', [1]], ['newinst', 2], ['addfeat', 1, 'x', ftype, many0, -1 if ftype else 0, 'append'],
+                         ['rebound', 1, 'x', ub]]
+                    if ub2 is not None:
+                        h += [['newinst', 1], ['get', 1, 'x'], ['rebound', 1, 'x', ub2]]
+                    h += [['newinst', 1], ['newinst', 2], ['get', 0, 'x']]
+                    many = (ub if ub2 is None else ub2)
+                    many = many < 0 or many > 1
+                    last = sum(1 for o in h if o[0] == 'newinst') - 1
+                    h.append(['append', last, 'x', 1000 if ftype else 3] if many else ['set', last, 'x', 1000 if ftype else 3])
+                    out.append(h)
+    return out
+
+
+def lifecycle_scenarios(ctx, out, intern=None, stats=None, which=('delclass', 'rebound')):
+    """Implementation + oracle only; PRNG streams 'C12:delclass' and 'C12:rebound'."""
+    common.use_repo()
+    intern = intern or mio.Interner()
+    thorough = ctx.tier == 'thorough'
+    hs = []
+    if 'delclass' in which:
+        rng = common.rng_for(ctx.seed, 'C12:delclass')
+        hs += [(h, 'delclass') for h in delclass_systematic()]
+        for _ in range(3000 if thorough else 300):
+            hs.append((DelGen(rng, 5, rng.randint(3, 8), 0.3).history(), 'delclass'))
+    if 'rebound' in which:
+        rng = common.rng_for(ctx.seed, 'C12:rebound')
+        hs += [(h, 'rebound') for h in rebound_systematic()]
+        for _ in range(3000 if thorough else 300):
+            hs.append((ReboundGen(rng, 4, rng.randint(4, 10)).history(), 'rebound'))
+    for h, scen in hs:
+        case = {'section': scen, 'scenario': scen, 'seed': ctx.seed, 'tier': ctx.tier, 'history': h, 'names': NAMES}
+        r = mio.run_impl(h, NAMES, intern)
+        if r['flag_after']:
+            restore_linearisation()
+        judge(out, h, NAMES, r['tokens'], r['per_op'], case, intern)
+        if r['isinstance_disagreements']:
+            out.fail({'property': 'C12', 'clause': 'isinstance-vs-EcoreUtils', 'culprit': 'isinstance', 'qualifiers': []},
+                     f'isinstance and EcoreUtils.isinstance disagree: {r["isinstance_disagreements"]}', case)
+        if stats is not None:
+            stats['oracle_only_histories'][scen] = stats['oracle_only_histories'].get(scen, 0) + 1
+            stats['ops'] += len(h)
+
+
 def generic_systematic():
     """A (x, f), B (y), C, D(C) with instances of each; C gets A as a generic super type (three ways); one edit of that
     channel; instances created afterwards; an old, untouched instance of C is looked at; the final dump judges."""
@@ -1288,6 +1419,7 @@ def run(ctx, out):
     views_scenarios(ctx, out, intern, stats)
     opwalk_scenarios(ctx, out, intern, stats)
     samename_scenarios(ctx, out, intern, stats)
+    lifecycle_scenarios(ctx, out, intern, stats)
     if mio.flag_installed():
         out.diff('Metasubinstance.mro is replaced in the checking process at the end of the run', {'global': True})
         restore_linearisation()
@@ -1350,8 +1482,10 @@ def replay(ctx, rep):
     if case.get('section') == 'c3':
         print('C3 table', case['table'], '(compare Model/C3.v with type.mro by hand)')
         return 1
-    if case.get('scenario') in ('views', 'opwalk', 'samename'):
-        return common.scenario_replay(ctx, rep, {'views': views_scenarios, 'opwalk': opwalk_scenarios, 'samename': samename_scenarios})
+    if case.get('scenario') in ('views', 'opwalk', 'samename', 'delclass', 'rebound'):
+        return common.scenario_replay(ctx, rep, {'views': views_scenarios, 'opwalk': opwalk_scenarios, 'samename': samename_scenarios,
+                                                 'delclass': lambda c, o: lifecycle_scenarios(c, o, which=('delclass',)),
+                                                 'rebound': lambda c, o: lifecycle_scenarios(c, o, which=('rebound',))})
     intern = mio.Interner()
     if case.get('init_flag'):
         mio.run_impl(mio.FLAG_TRIGGER, [], intern)
